@@ -93,7 +93,9 @@ class Site(object):
                 href = l.get('spelling') or self.url_text(l['to'])
                 if late and not l.get('inline'):
                     continue
-                if l.get('frame'):
+                if l.get('css'):
+                    parts.append('<link rel="stylesheet" href="%s">' % href)
+                elif l.get('frame'):
                     parts.append('<iframe src="%s"></iframe>' % href)
                 elif l.get('inline'):
                     parts.append('<img src="%s">' % href)
@@ -101,6 +103,12 @@ class Site(object):
                     parts.append('<a href="%s">x</a>' % href)
             parts.append('</body></html>')
             return 'page', _http(200, 'OK', ''.join(parts).encode(), 'text/html')
+        if kind == 'css':
+            parts = []
+            for l in d.get('links', []):
+                href = l.get('spelling') or self.url_text(l['to'])
+                parts.append('@import url("%s");' % href if l.get('imp') else '.c%d { background: url("%s"); }' % (l['to'], href))
+            return 'page', _http(200, 'OK', '\n'.join(parts).encode(), 'text/css')
         if kind == 'redirect':
             loc = d.get('location') or self.url_text(d['to'])
             return 'redirect', _http(d.get('code', 301), 'Moved', b'', 'text/html', [('Location', loc)])
